@@ -6,5 +6,6 @@ import NflowsModel.Properties.C01L
 import NflowsModel.Properties.C01N
 import NflowsModel.Properties.C01V
 import NflowsModel.Properties.C01M
+import NflowsModel.Properties.C01X
 
 #audit_namespace Properties.C01
